@@ -205,6 +205,12 @@ fn render_cell(cx: &mut Ctx, c: &CellSpec, col: u32, row: u32, excluded: &mut Ve
             let mut enc = c.enc % 4;
             if formula.is_some() {
                 enc = 3;
+                if looks_like_xstring(&text) {
+                    // the cached result of a formula is written into <v> (t="str"); no
+                    // producer writes t="s" next to <f>, so the escape look-alike is avoided here
+                    text = text.replace("_x", "_y");
+                    excluded.push("xstring-in-formula-result");
+                }
             }
             if enc == 2 && guessable(&text) && cx.steer.inline_guess {
                 enc = 0;
